@@ -266,13 +266,21 @@ func (cppTarget) RunCells(e *Env, cells []*Cell) {
 			}
 		}
 		t1 := time.Now()
-		so, se, err := runSegments(c, func(in []byte) ([]byte, []byte, error) { return Run(dir, cppRunTimeout, cppRunEnv, in, exe) })
+		so, se, err := runSegments(c, func(in []byte) ([]byte, []byte, error) {
+			return RunCapped(dir, cppRunTimeout, cppRunEnv, in, MaxDriverOutput, exe)
+		})
 		if tf := os.Getenv("VERIF_CPP_TIMING"); tf != "" {
 			// VERIF_CPP_TIMING=<file>: one line per cell that was really built (appended)
 			if f, ferr := os.OpenFile(tf, os.O_APPEND|os.O_CREATE|os.O_WRONLY, 0o644); ferr == nil {
 				fmt.Fprintf(f, "cpp timing %s: build %.2fs run %.2fs (%d commands)\n", c.Name, t1.Sub(t0).Seconds(), time.Since(t1).Seconds(), len(c.Input))
 				f.Close()
 			}
+		}
+		if err != nil && strings.HasPrefix(err.Error(), ErrOutputLimit) {
+			// the answers printed before the limit are observations like any other
+			c.Out = ParseDriverOutput(so)
+			c.BuildLog = err.Error() + "; answers so far are kept"
+			return
 		}
 		if err != nil {
 			isTimeout(err)
